@@ -425,6 +425,26 @@ pub fn gen_tree_holes<const K: usize>(r: &mut Rng, n: usize, m: usize, cfg: Tree
         if idxs.is_empty() {
             break;
         }
+        // one round in four: remove_all_descendants on its own (not through remove_child) below a decision, which is
+        // then regrown in place -- the decision keeps its index, its former descendants' indices are free for re-use
+        let decs: Vec<usize> = t.tree.decision_indices().collect();
+        if !decs.is_empty() && r.chance(1, 4) {
+            let d = decs[r.below(decs.len())];
+            let rows = t.tree.node_value(d).unwrap().aff.outdim();
+            let _ = t.tree.remove_all_descendants(d);
+            let nlabels = (1usize << rows).min(K);
+            let mut created = 0;
+            for l in 0..nlabels {
+                let last = l == nlabels - 1;
+                if r.chance(cfg.partial_pct, 100) && !(last && created == 0) {
+                    continue;
+                }
+                created += 1;
+                let dl = r.below(cfg.depth.max(1));
+                grow_subtree(r, &mut t, d, l, n, m, dl, cfg, &pool);
+            }
+            continue;
+        }
         let victim = idxs[r.below(idxs.len())];
         let (parent, label) = {
             let e = t.tree.parent(victim).unwrap();
